@@ -75,7 +75,7 @@ func c11Listing(infos []backendInfo) string {
 type c11Op struct {
 	Kind   string `json:"k"` // add remove strategy request
 	Name   string `json:"n,omitempty"`
-	Addr   int    `json:"a,omitempty"` // 1,2 good ; 0 unparsable
+	Addr   int    `json:"a,omitempty"` // 1,2 good ; 0 unparsable ; 3 the address of a@1 under whatever name
 	Weight int    `json:"w,omitempty"`
 	Strat  string `json:"s,omitempty"`
 }
@@ -102,7 +102,8 @@ var c11SeqAlphabet = func() []c11Op {
 		}
 		a = append(a, c11Op{Kind: "remove", Name: n})
 	}
-	for _, s := range []string{"round_robin", "weighted_round_robin", "ip_hash", "bogus"} {
+	a = append(a, c11Op{Kind: "add", Name: "c", Addr: 3, Weight: 2}) // two names, one address
+	for _, s := range []string{"round_robin", "weighted_round_robin", "ip_hash", "ip_hash_consistent", "bogus"} {
 		a = append(a, c11Op{Kind: "strategy", Strat: s})
 	}
 	a = append(a, c11Op{Kind: "request"})
@@ -118,6 +119,9 @@ var c11FullAlphabet = func() []c11Op {
 			}
 		}
 		a = append(a, c11Op{Kind: "remove", Name: n}, c11Op{Kind: "remove", Name: n})
+		if n != "a" {
+			a = append(a, c11Op{Kind: "add", Name: n, Addr: 3, Weight: 1})
+		}
 	}
 	for _, s := range append(append([]string{}, allStrategies...), "bogus", "") {
 		a = append(a, c11Op{Kind: "strategy", Strat: s})
@@ -131,6 +135,9 @@ var c11FullAlphabet = func() []c11Op {
 func c11AddrOf(p *c11Pool, name string, k int) string {
 	if k == 0 {
 		return "http://[::1"
+	}
+	if k == 3 {
+		name, k = "a", 1 // a second name for the address backend a was configured with
 	}
 	return p.bes[fmt.Sprintf("%s@%d", name, k)].URL
 }
@@ -226,17 +233,27 @@ func c11RunSeq(p *c11Pool, ops []c11Op, o *vh.Out) {
 				fail("request-failed", fmt.Sprintf("request got %d %q although %d backend(s) are listed and healthy", rec.Code, trunc(rec.Body.String(), 50), elig))
 				return
 			}
+			// the server that answered is identified by its address; several names may be configured with it
 			name := strings.SplitN(by, "@", 2)[0]
-			mem, ok := m.m[name]
+			listed, healthy := 0, 0
+			for _, mem := range m.m {
+				if mem.Addr == p.bes[by].URL {
+					listed++
+					if mem.Healthy {
+						healthy++
+					}
+				}
+			}
+			_, nameListed := m.m[name]
 			switch {
-			case !ok:
-				fail("served-by-unlisted", fmt.Sprintf("request served by %s, which is not in the pool", by))
-				return
-			case !mem.Healthy:
-				fail("served-by-ejected", fmt.Sprintf("request served by ejected %s", by))
-				return
-			case p.bes[by].URL != mem.Addr:
+			case listed == 0 && nameListed:
 				fail("served-by-old-address", fmt.Sprintf("request served by %s but %s is configured with the other address", by, name))
+				return
+			case listed == 0:
+				fail("served-by-unlisted", fmt.Sprintf("request served by %s, whose address no backend in the pool has", by))
+				return
+			case healthy == 0:
+				fail("served-by-ejected", fmt.Sprintf("request served by %s, every backend with that address is ejected", by))
 				return
 			}
 			o.Obs("requests_served", 1)
